@@ -117,7 +117,9 @@ CHECKS = {
             "any program whose final sign succeeds is loaded back (C10_program_roundtrip; refused calls change nothing; the "
             "name premises are premises about the program's delegate_role calls, C10_roles_come_from_program), the two target "
             "maps of a TargetsEditor refine one abstract map (C10_edit_refines_map) and the client finds in the top-level role "
-            "exactly that map after the operations made on it (C10_program_targets_seen); signing a role back into the tree "
+            "exactly that map after the operations made on it (C10_program_targets_seen) and the versions and expirations set last "
+            "(C10_program_settings_seen); a delegated role edited by its holder ends up in the tree with exactly the map after "
+            "the holder's operations (C10_role_edit_seen); signing a role back into the tree "
             "changes that role and nothing any other role says itself (C10_role_update_sets, C10_role_update_frame). The "
             "cross-party flow is an operation of the same state machine (the holder of a delegated role edits and signs "
             "elsewhere, update_delegated_targets: accepted only with the delegating role's threshold of distinct authorised "
